@@ -51,6 +51,21 @@ fn main() {
             let seed = marsim::runner::verif_seed();
             std::process::exit(marsim::props::check(&id, tier, seed));
         }
+        "debug-c03-tpl" => {
+            let from: u64 = args[2].parse().unwrap();
+            let to: u64 = args[3].parse().unwrap();
+            for i in from..to {
+                eprintln!("tpl run {}", i);
+                let r = marsim::props::gcsearch::one_run(
+                    marsim::props::gcsearch::Attribution::C03,
+                    1,
+                    1_000_000 + i,
+                    marsim::props::gcsearch::workload_templates,
+                    3,
+                );
+                eprintln!("  {} evals={} violation={:?}", r.workload, r.evals, r.violation.map(|v| v.signature));
+            }
+        }
         "replay" => {
             let f = args.get(2).cloned().unwrap_or_else(|| usage());
             std::process::exit(marsim::props::replay_file(Path::new(&f)));
